@@ -526,10 +526,14 @@ impl TryFrom<NaiveDateTime> for IntervalDT {
 
     #[inline]
     fn try_from(dt: NaiveDateTime) -> Result<Self> {
+        // `dt.usec` is 1_000_000 when the parsed fraction rounds up to a whole second:
+        // add it with carry, as `Time` and `Timestamp` do.
+        let whole = IntervalDT::try_from_dhms(dt.day, dt.hour, dt.minute, dt.sec, 0)?;
+        let interval = IntervalDT::try_from_usecs(whole.usecs() + dt.usec as i64)?;
         if dt.negative {
-            Ok(IntervalDT::try_from_dhms(dt.day, dt.hour, dt.minute, dt.sec, dt.usec)?.negate())
+            Ok(interval.negate())
         } else {
-            IntervalDT::try_from_dhms(dt.day, dt.hour, dt.minute, dt.sec, dt.usec)
+            Ok(interval)
         }
     }
 }
